@@ -132,6 +132,9 @@ def tmp_worktree(repo: str | Path = ".", ref: str = "HEAD") -> Iterator[Path]:
         RuntimeError: If the `git` executable is unavailable, or if it cannot create a worktree
     """
     assert_git_repo(repo)
+    # The working directory can change while the worktree is in use (code run by the loading, extensions):
+    # a relative path would not lead the clean-up commands to the repository anymore.
+    repo = os.path.abspath(repo)  # noqa: PTH100
     repo_name = Path(repo).resolve().name
     normref = _normalize(ref)  # Branch names can contain slashes.
     with TemporaryDirectory(prefix=f"{_WORKTREE_PREFIX}{repo_name}-{normref}-") as tmp_dir:
